@@ -1,4 +1,414 @@
 package main
 
-func cmdCheck(args []string) int    { return 2 }
-func cmdSelftest(args []string) int { return 2 }
+import (
+	"encoding/json"
+	"flag"
+	"fmt"
+	"os"
+	"path/filepath"
+	"sort"
+	"strings"
+	"sync/atomic"
+	"time"
+)
+
+const (
+	wtxmgrPkg   = "github.com/btcsuite/btcwallet/wtxmgr"
+	waddrmgrPkg = "github.com/btcsuite/btcwallet/waddrmgr"
+	walletPkg   = "github.com/btcsuite/btcwallet/wallet"
+	chainPkg    = "github.com/btcsuite/btcwallet/chain"
+	snaclPkg    = "github.com/btcsuite/btcwallet/snacl"
+	migPkg      = "github.com/btcsuite/btcwallet/walletdb/migration"
+	bdbPkg      = "github.com/btcsuite/btcwallet/walletdb/bdb"
+	txauthorPkg = "github.com/btcsuite/btcwallet/wallet/txauthor"
+)
+
+// hrun is one harness execution of a property check.
+type hrun struct {
+	Pkg      string
+	Fn       string
+	Tiers    string   // "q", "t" or "qt"
+	Reach    []string // labels that must be reached on some feasible path
+	MaxSteps int64
+	Bound    string // human-readable bound of this harness
+}
+
+type propDef struct {
+	ID      string
+	Runs    []hrun
+	Assume  []string // assumptions / trusted base beyond the stubs actually hit
+	Outside string   // what lies outside the bounds
+	Rule    string
+}
+
+var props = map[string]*propDef{}
+
+func reg(p *propDef) { props[p.ID] = p }
+
+func (r hrun) inTier(tier string) bool {
+	if tier == "quick" {
+		return strings.Contains(r.Tiers, "q")
+	}
+	return strings.Contains(r.Tiers, "t")
+}
+
+type knownFile struct {
+	Findings []KnownFinding `json:"findings"`
+}
+
+func loadKnown() []KnownFinding {
+	b, err := os.ReadFile(filepath.Join(verifRoot, "known_findings.json"))
+	if err != nil {
+		return nil
+	}
+	var kf knownFile
+	if err := json.Unmarshal(b, &kf); err != nil {
+		fmt.Fprintln(os.Stderr, "known_findings.json:", err)
+		return nil
+	}
+	return kf.Findings
+}
+
+func cmdCheck(args []string) int {
+	if len(args) < 1 {
+		usage()
+	}
+	id := args[0]
+	fs := flag.NewFlagSet("check", flag.ExitOnError)
+	tier := fs.String("tier", "", "quick|thorough")
+	only := fs.String("only", "", "run only the harness with this function name")
+	budget := fs.Duration("budget", 0, "wall-clock budget for the whole check")
+	fs.Parse(args[1:])
+	if *tier == "" {
+		*tier = os.Getenv("VERIF_TIER")
+	}
+	if *tier == "" {
+		*tier = "quick"
+	}
+	p := props[id]
+	if p == nil {
+		fmt.Fprintf(os.Stderr, "unknown property %s\n", id)
+		return 2
+	}
+	t0 := time.Now()
+	var patterns []string
+	seen := map[string]bool{}
+	for _, r := range p.Runs {
+		if r.inTier(*tier) && !seen[r.Pkg] {
+			seen[r.Pkg] = true
+			patterns = append(patterns, r.Pkg)
+		}
+	}
+	P, err := loadProgram(patterns)
+	if err != nil {
+		fmt.Fprintln(os.Stderr, "cannot load /repo:", err)
+		writeEvidenceFailure(id, *tier, "load error: "+err.Error(), time.Since(t0))
+		return 2
+	}
+	lastProgram = P
+	known := loadKnown()
+	var myKnown []KnownFinding
+	for _, k := range known {
+		if k.Property == id {
+			myKnown = append(myKnown, k)
+		}
+	}
+
+	ev := newEvidence(id, *tier)
+	exit := 0
+	nViol := 0
+	var deadline time.Time
+	if *budget > 0 {
+		deadline = t0.Add(*budget)
+	}
+	for _, r := range p.Runs {
+		if !r.inTier(*tier) || (*only != "" && *only != r.Fn) {
+			continue
+		}
+		fn, err := P.findFunc(r.Pkg, r.Fn)
+		if err != nil {
+			fmt.Fprintln(os.Stderr, err)
+			exit = 2
+			continue
+		}
+		cfg := defaultConfig()
+		cfg.Harness = r.Fn
+		cfg.PkgPath = r.Pkg
+		cfg.Known = myKnown
+		cfg.Deadline = deadline
+		if *tier == "thorough" {
+			cfg.CrossEvery = 50
+		}
+		if r.MaxSteps > 0 {
+			cfg.MaxSteps = r.MaxSteps
+		}
+		h0 := time.Now()
+		e := newExplorer(P, fn, cfg)
+		e.Run()
+		e.summary(os.Stdout, time.Since(h0))
+		ev.add(e, r, time.Since(h0))
+		for _, l := range r.Reach {
+			if e.reach[l] == 0 && len(e.violations) == 0 {
+				fmt.Printf("INCONCLUSIVE: harness %s is vacuous: label %q reached on no feasible path\n", r.Fn, l)
+				ev.note("vacuous: label " + l + " not reached in " + r.Fn)
+				exit = max(exit, 2)
+			}
+		}
+		if len(e.inconclusive) > 0 {
+			exit = max(exit, 2)
+		}
+		for k := range e.violations {
+			v := &e.violations[k]
+			ok, path, detail := confirmViolation(v, id, r.Pkg, nViol)
+			nViol++
+			if ok {
+				fmt.Printf("VIOLATION property=%s replay=%s\n", id, path)
+				fmt.Printf("  assertion %q in %s; %s; trace: %s\n", v.Label, v.Harness, detail, v.Trace)
+				ev.Violations++
+				exit = 1
+			} else {
+				fmt.Printf("INCONCLUSIVE: solver model for %q in %s did not reproduce natively (%s); encoder/stub discrepancy, replay kept at %s\n", v.Label, v.Harness, detail, path)
+				ev.note("model did not replay: " + v.Label)
+				if exit == 0 {
+					exit = 2
+				}
+			}
+		}
+		for what, n := range e.knownHits {
+			fmt.Printf("KNOWN-FINDING: property=%s %s (hit on %d paths of %s)\n", id, what, n, r.Fn)
+			ev.Known = append(ev.Known, what)
+		}
+		// validate a few witness paths natively (engine vs real build)
+		ev.validateWitnesses(e, r, id)
+	}
+	if atomic.LoadInt64(&gstats.CrossDiffs) > 0 {
+		fmt.Println("INCONCLUSIVE: z3 and cvc5 disagreed on a query")
+		exit = max(exit, 2)
+	}
+	if ev.WitnessMismatch > 0 {
+		fmt.Println("INCONCLUSIVE: a witness path did not replay natively (engine and real build disagree)")
+		exit = max(exit, 2)
+	}
+	ev.finish(p, time.Since(t0), exit)
+	if exit == 0 {
+		fmt.Printf("OK property=%s tier=%s paths=%d assertions=%d wall=%.1fs\n", id, *tier, ev.States, ev.Discharged, time.Since(t0).Seconds())
+	}
+	return exit
+}
+
+// ---------------------------------------------------------------- evidence
+
+type evidence struct {
+	ID, Tier        string
+	States          int64
+	Transitions     int64
+	Discharged      int64
+	Trivial         int64
+	Infeasible      int64
+	SolverForks     int64
+	StructForks     int64
+	Forced          int64
+	Steps           int64
+	Validated       int
+	WitnessMismatch int
+	Violations      int
+	Known           []string
+	Samples         []interface{}
+	Harnesses       []map[string]interface{}
+	Funcs           map[string]int64
+	Stubs           map[string]int
+	ReachAll        map[string]int64
+	Notes           []string
+	Bounds          []string
+	Exhaustive      bool
+}
+
+func newEvidence(id, tier string) *evidence {
+	return &evidence{ID: id, Tier: tier, Funcs: map[string]int64{}, Stubs: map[string]int{}, ReachAll: map[string]int64{}, Exhaustive: true}
+}
+
+func (ev *evidence) note(s string) { ev.Notes = append(ev.Notes, s) }
+
+func (ev *evidence) add(e *Explorer, r hrun, d time.Duration) {
+	ev.States += e.pathsDone
+	ev.Transitions += e.decisions
+	ev.Discharged += e.assertsDischarged
+	ev.Trivial += e.assertsTriv
+	ev.Infeasible += e.infeasible
+	ev.SolverForks += e.solverForks
+	ev.StructForks += e.structForks
+	ev.Forced += e.forcedBranches
+	ev.Steps += e.steps
+	for f, n := range e.funcInstrs {
+		ev.Funcs[f] += n
+	}
+	for s, n := range e.stubs {
+		ev.Stubs[s] += n
+	}
+	for l, n := range e.reach {
+		ev.ReachAll[r.Fn+":"+l] += n
+	}
+	for _, s := range e.samples {
+		if len(ev.Samples) < 12 {
+			ev.Samples = append(ev.Samples, map[string]interface{}{"harness": r.Fn, "path": s})
+		}
+	}
+	if len(e.inconclusive) > 0 || atomic.LoadInt32(&e.stop) != 0 {
+		ev.Exhaustive = false
+	}
+	for _, m := range e.inconclusive {
+		ev.note(r.Fn + ": " + firstLine(m))
+	}
+	ev.Bounds = append(ev.Bounds, r.Fn+": "+r.Bound)
+	ev.Harnesses = append(ev.Harnesses, map[string]interface{}{
+		"harness": r.Fn, "package": r.Pkg, "bound": r.Bound, "paths": e.pathsDone, "infeasible_paths": e.infeasible,
+		"assertions_discharged": e.assertsDischarged, "of_which_concretely_true": e.assertsTriv,
+		"solver_decided_branches": e.solverForks, "forced_branches": e.forcedBranches,
+		"structural_forks": e.structForks, "ssa_steps": e.steps, "wall_s": round1(d.Seconds()),
+		"sched_switches": e.schedSwitches, "sched_transitions": e.schedTransitions,
+	})
+}
+
+func firstLine(s string) string {
+	if k := strings.IndexByte(s, '\n'); k >= 0 {
+		return s[:k]
+	}
+	return s
+}
+
+func round1(f float64) float64 { return float64(int(f*10+0.5)) / 10 }
+
+// validateWitnesses replays up to three completed paths natively: the real
+// build, run on the solver's witness for that path, must pass every assertion
+// and satisfy every assumption.
+func (ev *evidence) validateWitnesses(e *Explorer, r hrun, id string) {
+	e.mu.Lock()
+	ws := e.witnesses
+	e.mu.Unlock()
+	for k, w := range ws {
+		if k >= 3 {
+			break
+		}
+		v := Violation{Label: "(witness)", Harness: r.Fn, Model: w.Model, Choices: w.Choices, Trace: w.Trace}
+		path := filepath.Join(verifRoot, "replays", fmt.Sprintf("witness-%s-%s-%d.json", id, r.Fn, k))
+		rep := map[string]interface{}{"property": id, "harness": r.Fn, "package": r.Pkg, "label": "(witness)",
+			"model": v.Model, "choices": v.Choices, "trace": v.Trace}
+		if err := writeJSON(path, rep); err != nil {
+			continue
+		}
+		failed, mismatch, panicked, out, err := nativeReplay(r.Pkg, r.Fn, path)
+		if err != nil {
+			ev.note("witness replay could not run: " + err.Error() + " " + lastLines(out, 5))
+			ev.WitnessMismatch++
+			continue
+		}
+		if len(failed) == 0 && len(mismatch) == 0 && panicked == "" {
+			ev.Validated++
+			os.Remove(path)
+		} else {
+			ev.WitnessMismatch++
+			ev.note(fmt.Sprintf("witness %s disagreed natively: failed=%q mismatch=%q panic=%q", path, failed, mismatch, panicked))
+			fmt.Printf("  witness %s disagreed natively: failed=%q mismatch=%q panic=%q\n", path, failed, mismatch, panicked)
+		}
+	}
+}
+
+func lastLines(s string, n int) string {
+	ls := strings.Split(strings.TrimSpace(s), "\n")
+	if len(ls) > n {
+		ls = ls[len(ls)-n:]
+	}
+	return strings.Join(ls, " | ")
+}
+
+func (ev *evidence) finish(p *propDef, d time.Duration, exit int) {
+	type fc struct {
+		Name  string `json:"function"`
+		Steps int64  `json:"ssa_instructions_executed"`
+	}
+	var funcs []fc
+	for f, n := range ev.Funcs {
+		if strings.Contains(f, "btcsuite/btcwallet") && !strings.Contains(f, "zz") && !strings.Contains(f, "Zz") {
+			funcs = append(funcs, fc{f, n})
+		}
+	}
+	sort.Slice(funcs, func(a, b int) bool { return funcs[a].Steps > funcs[b].Steps })
+	var stubs []string
+	for s := range ev.Stubs {
+		if !strings.HasPrefix(s, "verif/verifrt.") {
+			stubs = append(stubs, s)
+		}
+	}
+	sort.Strings(stubs)
+	assumptions := append([]string{}, p.Assume...)
+	assumptions = append(assumptions,
+		"symgo executes the SSA (golang.org/x/tools v0.29.0) of /repo's current sources; Go semantics as implemented by the executor (validated by `symgo selftest` and by native replay of witness paths)",
+		"intercepted functions (stubs/models) actually hit in this run: "+strings.Join(stubs, ", "),
+		"data-race freedom of the code under check (context switches only at synchronisation operations)",
+	)
+	cov := map[string]interface{}{
+		"states":                        max64(ev.States, 0),
+		"transitions":                   ev.Transitions,
+		"traces_validated_against_impl": ev.Validated,
+		"samples":                       ev.Samples,
+		"exhaustive":                    ev.Exhaustive && exit == 0,
+		"explanation": "states = feasible paths explored to completion (each stands for all values of its symbolic inputs); " +
+			"transitions = decisions taken along them; traces_validated = witness paths whose solver model was replayed natively against the real build with every assertion passing",
+		"functions_encoded":               funcs,
+		"bounds":                          ev.Bounds,
+		"outside_bound":                   p.Outside,
+		"assertions_discharged":           ev.Discharged,
+		"assertions_concretely_true":      ev.Trivial,
+		"assertions_discharged_by_solver": ev.Discharged - ev.Trivial,
+		"solver_decided_branches":         ev.SolverForks,
+		"forced_branches":                 ev.Forced,
+		"structural_forks":                ev.StructForks,
+		"infeasible_paths_pruned":         ev.Infeasible,
+		"ssa_instructions_executed":       ev.Steps,
+		"queries": map[string]interface{}{
+			"z3_sat": gstats.Sat, "z3_unsat": gstats.Unsat, "z3_unknown": gstats.Unknown, "solver_errors": gstats.Errors,
+			"escalated": gstats.Escalated, "escalated_sat": gstats.EscSat, "escalated_unsat": gstats.EscUnsat, "escalated_unknown": gstats.EscUnk,
+			"cross_checked_with_cvc5": gstats.CrossChecked, "cross_solver_disagreements": gstats.CrossDiffs,
+		},
+		"solver_s":       round1(float64(gstats.Nanos) / 1e9),
+		"reach_labels":   ev.ReachAll,
+		"harnesses":      ev.Harnesses,
+		"known_findings": ev.Known,
+		"notes":          ev.Notes,
+		"exit":           exit,
+	}
+	out := map[string]interface{}{
+		"property_id": ev.ID,
+		"tier":        ev.Tier,
+		"seed":        envSeed(),
+		"level":       "model_checking",
+		"coverage":    cov,
+		"assumptions": assumptions,
+		"wall_s":      round1(d.Seconds()),
+		"violations":  ev.Violations,
+	}
+	os.MkdirAll(filepath.Join(verifRoot, "evidence"), 0o755)
+	if err := writeJSON(filepath.Join(verifRoot, "evidence", ev.ID+".json"), out); err != nil {
+		fmt.Fprintln(os.Stderr, "cannot write evidence:", err)
+	}
+}
+
+func max64(a, b int64) int64 {
+	if a > b {
+		return a
+	}
+	return b
+}
+
+func writeEvidenceFailure(id, tier, msg string, d time.Duration) {
+	ev := newEvidence(id, tier)
+	ev.note(msg)
+	ev.Exhaustive = false
+	p := props[id]
+	if p == nil {
+		p = &propDef{ID: id}
+	}
+	ev.finish(p, d, 2)
+}
+
+func cmdSelftest(args []string) int { return runSelftest() }
